@@ -113,6 +113,13 @@ func main() {
 		code := selftest(os.Args[2:])
 		cleanupScratch()
 		os.Exit(code)
+	case "warm":
+		// setup: compile every worker once so that the build cache is warm
+		for _, p := range []string{"C10", "C11", "C19"} {
+			bt := buildFor(p)
+			fmt.Printf("warm: built workers for %s in %.1fs\n", p, bt.buildS)
+			cleanupScratch()
+		}
 	case "prepare":
 		// development aid: leave a built scratch tree at the given directory
 		if len(os.Args) < 3 {
